@@ -75,9 +75,10 @@ Definition short_labels (rdn : option (list (list N))) : Prop :=
 Lemma rec_ok_shape ls ty cl ttl rd rdn : rd_shape ty rd rdn -> short_labels rdn -> rec_ok (mk_rr ls ty cl ttl rd rdn).
 Proof.
   intros Hs Hsh. unfold rec_ok, T_CNAME, T_MX, T_SRV, T_TXT. cbn [mk_rr rr_type rr_rdname rr_rdata].
-  destruct Hs as [ty rd [H5 [H2 [H15 [H33 [H16 [H1 H41]]]]]]|rd Ht Hl|ty pfx rl Hp Hok Hw].
+  destruct Hs as [ty rd [H5 [H2 [H15 [H33 [H16 [H1 H41]]]]]]|rd Ht Hl|rd Hl4|ty pfx rl Hp Hok Hw].
   - split; [intros [E|[E|E]]; lia|intros E; lia].
   - split; [intros [E|[E|E]]; discriminate|]. intros _. split; assumption.
+  - split; [intros [E|[E|E]]; discriminate|intros E; discriminate].
   - split.
     + intros _. exists rl. repeat split; [|exact Hw].
       cbn [short_labels] in Hsh. unfold lens_ok in Hok. rewrite Forall_forall in *. intros l Hl.
